@@ -722,6 +722,9 @@ Proof.
   destruct (b_rounds_flag (w_bot w)); [reflexivity|].
   destruct (gen_next _ _) as [[g' [r cs]]|e]; reflexivity.
 Qed.
+Lemma obells_upd_bot w f : obells (upd_bot w f) = obells w.
+Proof. reflexivity. Qed.
+
 Lemma obells_start_next_row w f : obells (fst (start_next_row w f)) = obells w.
 Proof.
   unfold start_next_row.
@@ -732,7 +735,7 @@ Proof.
     match goal with |- obells (upd_bot (make_call ?x uStand) _) = _ =>
       change (obells (make_call x uStand) = obells w); rewrite obells_make_call end. reflexivity. }
   set (w3 := match act with Start _ => upd_bot w2 _ | NoStart => w2 end).
-  assert (E3 : obells w3 = obells w) by (unfold w3; destruct act; exact E2).
+  assert (E3 : obells w3 = obells w) by (unfold w3; destruct act; rewrite ?obells_upd_bot; exact E2).
   destruct (negb (b_ringing (w_bot w3))); [exact E3|].
   pose proof (obells_generate_next_row w3) as G.
   destruct (generate_next_row w3) as [w4 [e|]]; cbn [hthen hok fst] in *; [congruence|].
@@ -1061,4 +1064,103 @@ Proof.
   - rewrite HL. rewrite skipn_app, skipn_all, Nat.sub_diag. cbn [skipn app].
     apply Permutation.Permutation_app_tail. exact HP.
   - assert (extra = []) by (destruct extra; [reflexivity | cbn in Hge; lia]). subst. rewrite app_nil_r. exact HP.
+Qed.
+
+(* ------------------------------------------------------------------ C05 at the level of the Bot *)
+(* the turnover at which the start counter is 0 resets the generator BEFORE the first method row is
+   generated: that row, the calls attached to it and the generator that rings on are a function of
+   gen_reset (generator) alone *)
+Definition pad_to (opening r : row) : row :=
+  if length r <? length opening then r ++ skipn (length r) opening else r.
+
+Lemma snr_ctl_start sar hjr nh ok fits k k' act :
+  opt_z_is (k_left k) 0 = true -> snr_ctl sar hjr nh ok fits k = Ok (k', act) ->
+  act = Start (negb fits) /\ k_opening k' = false.
+Proof.
+  unfold snr_ctl. intros Z0. rewrite Z0. destruct (negb ok); [discriminate|]. cbn [bind].
+  repeat match goal with |- context [let '(_, _) := ?x in _] => destruct x end.
+  intros H; inversion H; subst; cbn; auto.
+Qed.
+
+Lemma bot_upd_bot w f : w_bot (upd_bot w f) = f (w_bot w).  Proof. reflexivity. Qed.
+Section Prj.
+  Variables (b : bot) (k : ctl) (g g' : gen) (r : row) (c : list call) (pl rn : nat).
+  Let b1 := b <| b_place := pl |> <| b_row_number := rn |> <| b_calls := c |>.
+  Lemma prj1_gen : b_gen b1 = b_gen b.  Proof. reflexivity. Qed.
+  Lemma prj1_opening_row : b_opening_row b1 = b_opening_row b.  Proof. reflexivity. Qed.
+  Lemma prj1_row_number : b_row_number b1 = rn.  Proof. reflexivity. Qed.
+  Lemma prjc_gen : b_gen (set_ctl b k) = b_gen b.  Proof. reflexivity. Qed.
+  Let b4 := set_ctl b k <| b_gen := g |>.
+  Lemma prj_opening : b_opening_flag b4 = k_opening k.  Proof. reflexivity. Qed.
+  Lemma prj_rounds : b_rounds_flag b4 = k_rounds k.  Proof. reflexivity. Qed.
+  Lemma prj_ringing : b_ringing b4 = k_ringing k.  Proof. reflexivity. Qed.
+  Lemma prj_gen : b_gen b4 = g.  Proof. reflexivity. Qed.
+  Lemma prj_opening_row : b_opening_row b4 = b_opening_row b.  Proof. reflexivity. Qed.
+  Lemma prj_row_number : b_row_number b4 = b_row_number b.  Proof. reflexivity. Qed.
+  Lemma prj_rounds_row : b_rounds_flag (b <| b_row := r |>) = b_rounds_flag b.  Proof. reflexivity. Qed.
+  Let b5 := b <| b_gen := g' |> <| b_row := r |> <| b_calls := c |>.
+  Lemma prj5_row_number : b_row_number b5 = b_row_number b.  Proof. reflexivity. Qed.
+  Lemma prj5_gen : b_gen b5 = g'.  Proof. reflexivity. Qed.
+  Lemma prj5_row : b_row b5 = r.  Proof. reflexivity. Qed.
+  Lemma prj5_calls : b_calls b5 = c.  Proof. reflexivity. Qed.
+End Prj.
+
+Opaque gen_next gen_reset expect_loop make_call.
+Theorem method_start_is_fresh w f w' :
+  opt_z_is (b_rounds_left (w_bot w)) 0 = true ->
+  start_next_row w f = (w', None) ->
+  b_ringing (w_bot w') = true -> b_rounds_flag (w_bot w') = false ->
+  exists g' r cs,
+    gen_next (gen_reset (b_gen (w_bot w))) (stroke_of_row (b_row_number (w_bot w'))) = Ok (g', (r, cs))
+    /\ b_gen (w_bot w') = g'
+    /\ b_row (w_bot w') = pad_to (b_opening_row (w_bot w)) r
+    /\ b_calls (w_bot w') = cs.
+Proof.
+  intros Z0. unfold start_next_row.
+  set (b0 := w_bot w).
+  set (rn := if f then 0 else S (b_row_number b0)).
+  match goal with |- context [upd_bot w ?f] => set (w1 := upd_bot w f); pose (b1 := f b0) end.
+  cbv beta in b1.
+  assert (W1 : w_bot w1 = b1) by reflexivity.
+  destruct (snr_ctl _ _ _ _ _ (ctl_of b0)) as [[k act]|e] eqn:SS; [|discriminate].
+  assert (Z1 : opt_z_is (k_left (ctl_of b0)) 0 = true) by exact Z0.
+  destruct (snr_ctl_start _ _ _ _ _ _ _ _ Z1 SS) as [-> Ko]. clear SS.
+  cbv iota.
+  match goal with |- context [hthen (generate_next_row ?x)] => set (w4 := x) end.
+  assert (B4 : w_bot w4 = (set_ctl b1 k) <| b_gen := gen_reset (b_gen b0) |>).
+  { unfold w4. rewrite !bot_upd_bot.
+    assert (E : w_bot (if negb (check_bells w1 (b_gen b0)) then make_call w1 uStand else w1) = b1).
+    { destruct (negb (check_bells w1 (b_gen b0))); [rewrite bot_make_call|]; exact W1. }
+    rewrite E. rewrite prjc_gen. unfold b1. rewrite prj1_gen. reflexivity. }
+  clearbody w4 w1.
+  destruct (negb (b_ringing (w_bot w4))) eqn:R.
+  - intros H; inversion H; subst w'. intros R'. rewrite R' in R. discriminate.
+  - unfold generate_next_row. rewrite B4.
+    rewrite prj_opening, prj_rounds, prj_gen, prj_opening_row, prj_row_number, Ko.
+    unfold b1 at 1 2 3. rewrite prj1_opening_row, prj1_row_number.
+    destruct (k_rounds k) eqn:Kr.
+    + cbn [hthen hok]. intros H; inversion H; subst w'. rewrite bot_expect_loop, bot_upd_bot, B4.
+      rewrite prj_rounds_row, prj_rounds, Kr. discriminate.
+    + destruct (gen_next (gen_reset (b_gen b0)) (stroke_of_row rn)) as [[g' [r cs]]|e] eqn:G; cbn [hthen hok]; [|discriminate].
+      intros H; inversion H; subst w'. rewrite !bot_expect_loop. intros _ _.
+      exists g', r, cs. rewrite !bot_upd_bot, B4.
+      rewrite prj5_row_number, prj5_gen, prj5_row, prj5_calls, prj_row_number. unfold b1. rewrite prj1_row_number.
+      split; [exact G|]. split; [reflexivity|]. split; reflexivity.
+Qed.
+
+(* ... hence, whatever the session did to the generator since it was built (ops: calls pending, a call
+   half rung, any position), the method starts exactly as a freshly launched Wheatley starts it *)
+Corollary method_start_like_fresh_launch w f w' g0 ops :
+  fresh g0 -> b_gen (w_bot w) = gen_after g0 ops ->
+  opt_z_is (b_rounds_left (w_bot w)) 0 = true ->
+  start_next_row w f = (w', None) ->
+  b_ringing (w_bot w') = true -> b_rounds_flag (w_bot w') = false ->
+  exists g' r cs,
+    gen_next g0 (stroke_of_row (b_row_number (w_bot w'))) = Ok (g', (r, cs))
+    /\ b_gen (w_bot w') = g'
+    /\ b_row (w_bot w') = pad_to (b_opening_row (w_bot w)) r
+    /\ b_calls (w_bot w') = cs.
+Proof.
+  intros F E Z0 H R1 R2. destruct (method_start_is_fresh w f w' Z0 H R1 R2) as [g' [r [cs [G rest]]]].
+  exists g', r, cs. split; [|exact rest]. rewrite E, (reset_after_any_history_is_fresh g0 ops F) in G. exact G.
 Qed.
